@@ -196,6 +196,17 @@ func newWorld(u *Universe, dir string, gapLimit uint32, install func(w *World)) 
 	}
 	w := &World{U: u, Dir: dir, E: e, Wals: map[string]*Wal{},
 		Blk: map[int]*massutil.Block{0: e.Genesis}, Tx: map[string]*wire.MsgTx{}, TxName: map[wire.Hash]string{}}
+	// a long stranger-only prefix below the modelled chain: abstract height h is concrete height Offset + h
+	for k := 1; k <= u.Offset; k++ {
+		p := w.Blk[0]
+		cb := e.Coinbase(p.Height()+1, env.StrangerScript(uint64(1<<40+k)), 50*Unit, uint64(1<<40+k))
+		blk := e.MakeBlock(*p.Hash(), cb, nil)
+		if err := e.Attach(blk); err != nil {
+			return nil, fmt.Errorf("offset block %d: %v", k, err)
+		}
+		w.Blk[0] = blk
+	}
+	masswallet.VerifImportOffset = uint64(u.Offset)
 	w.Cfg = &config.Config{Core: config.NewDefCoreConfig(), Wallet: config.NewDefWalletConfig()}
 	w.Cfg.Wallet.Settings.AddressGapLimit = gapLimit
 	w.dbPath = filepath.Join(dir, "wallet.db")
@@ -607,6 +618,19 @@ func (w *World) Do(s *Step) error {
 			return fmt.Errorf("restored wallet id %s differs from the original %s", sum.WalletID, wl.ID)
 		}
 		wl.Imported = true
+		// offset worlds: the unscaled 1000-height batches that lie wholly below the modelled chain
+		// are run here, silently (they scan stranger blocks only); the model's first batch is the
+		// one that crosses into the modelled part
+		if extra := w.U.Offset / 1000; extra > 0 {
+			if n := w.H.VerifTaskQueueLen(); n != 1 {
+				return fmt.Errorf("harness: model-mismatch: offset world with %d queued tasks at an import", n)
+			}
+			for k := 0; k < extra; k++ {
+				if _, err := w.workerStep(); err != nil {
+					return err
+				}
+			}
+		}
 	case "Remove":
 		wl := w.Wals[s.W]
 		if err := w.W.RemoveWallet(wl.ID, "wrongPass"+s.W); err == nil {
@@ -763,6 +787,11 @@ func (w *World) Compare(exp *Expect) ([]Diff, error) {
 	if err != nil {
 		return nil, err
 	}
+	off := uint64(w.U.Offset) // stranger-only blocks below the modelled chain (harness/replay/universe.go)
+	if synced < off {
+		add("synced-height", "", "SyncedTo", fmt.Sprint(exp.Synced+w.U.Offset), fmt.Sprint(synced))
+	}
+	synced -= off
 	if int(synced) != exp.Synced {
 		add("synced-height", "", "SyncedTo", fmt.Sprint(exp.Synced), fmt.Sprint(synced))
 	}
@@ -882,6 +911,9 @@ func (w *World) Compare(exp *Expect) ([]Diff, error) {
 				}
 			}
 			for _, d := range l {
+				if d.BlockHeight >= off {
+					d.BlockHeight -= off
+				}
 				key := fmt.Sprintf("%s:%d", w.nameOf(d.TxId), d.Vout)
 				val := fmt.Sprintf("addr=%d amt=%d h=%d mat=%d", ai, amt(d.Amount)/Unit, d.BlockHeight, d.Maturity)
 				gotSbu[key] = fmt.Sprint(d.SpentByUnmined)
@@ -999,6 +1031,9 @@ func (w *World) Compare(exp *Expect) ([]Diff, error) {
 					ai = i
 				}
 			}
+			if d.BlockHeight >= off && d.BlockHeight > 0 {
+				d.BlockHeight -= off
+			}
 			if d.BlockHeight == 0 {
 				gotP[key] = fmt.Sprintf("stk amt=%d", amt(d.Utxo.Amount)/Unit)
 			} else {
@@ -1017,6 +1052,9 @@ func (w *World) Compare(exp *Expect) ([]Diff, error) {
 				if d.Utxo.Holder != nil && k.Std == d.Utxo.Holder.EncodeAddress() {
 					ai = i
 				}
+			}
+			if d.BlockHeight >= off && d.BlockHeight > 0 {
+				d.BlockHeight -= off
 			}
 			if d.BlockHeight == 0 {
 				gotP[key] = fmt.Sprintf("bind amt=%d", amt(d.Utxo.Amount)/Unit)
